@@ -3,6 +3,7 @@ package prog
 import (
 	"github.com/yorkie-team/yorkie/pkg/document"
 	"github.com/yorkie-team/yorkie/pkg/document/operations"
+	"sync"
 )
 
 // Exclusions by construction for the open entries of /verif/known_findings.json.
@@ -45,8 +46,8 @@ func GuardF2(d *document.Document, s Step) (Step, string) {
 	return ns, "F2"
 }
 
-// Chain combines guards; the first one that rewrites wins, later guards see
-// the rewritten step.
+// Chain combines guards; later guards see the rewritten step. The reported
+// finding is the first one that rewrote the step, or the one that skipped it.
 func Chain(gs ...Guard) Guard {
 	return func(d *document.Document, s Step) (Step, string) {
 		why := ""
@@ -54,8 +55,12 @@ func Chain(gs ...Guard) Guard {
 			ns, w := g(d, s)
 			if w != "" {
 				s = ns
-				if why == "" {
+				if why == "" || ns.Op == "" {
+					// the finding that decided: the first rewrite, or whoever skips the step
 					why = w
+				}
+				if ns.Op == "" {
+					return s, why
 				}
 			}
 		}
@@ -174,7 +179,53 @@ func tombAdjacent(removed []bool, k int) bool {
 // tombstone (a removed text/tree node, a removed array element or a dead array
 // slot). Such inserts are skipped (counted) in runs where clients collect
 // garbage; the GC-off strata are never restricted.
+//
+// The divergence additionally needs a node that is concurrent with the new
+// insert and NEWER than it at that boundary: one made by a client that has not
+// seen the insert. When the harness knows all replicas of the run (a Runner
+// registered the document), the step is therefore executed after all when no
+// such node can exist: the editing replica has pulled the whole log and every
+// other attached replica is fully synchronised and holds no unsent change -
+// then every existing node is older than the new one, and whoever inserts at
+// that boundary later knows the tombstone and anchors on the same live node.
 func GuardF48(d *document.Document, s Step) (Step, string) {
+	out, why := guardF48Local(d, s)
+	if why == "" {
+		return out, why
+	}
+	if v, ok := runnerOf.Load(d); ok {
+		if r := v.(*Runner); r.othersQuiescent(d) {
+			r.Ev["F48_boundary_executed_no_concurrent_insert_possible"]++
+			return s, ""
+		}
+	}
+	return out, why
+}
+
+// runnerOf maps the documents of running Runners to their Runner.
+var runnerOf sync.Map
+
+// othersQuiescent: d has pulled the whole log, every other attached replica
+// is at the head too and has nothing unsent.
+func (r *Runner) othersQuiescent(d *document.Document) bool {
+	di, err := r.DocInfo()
+	if err != nil {
+		return false
+	}
+	for _, q := range r.Peers {
+		if !q.Attached {
+			continue
+		}
+		if q.D.Checkpoint().ServerSeq != di.ServerSeq {
+			return false
+		}
+		if q.D != d && q.D.HasLocalChanges() {
+			return false
+		}
+	}
+	return true
+}
+func guardF48Local(d *document.Document, s Step) (Step, string) {
 	skip := Step{}
 	root := d.Root()
 	switch s.Op {
